@@ -3,7 +3,7 @@ import os
 import vlib
 from props import topic_common as tc
 
-KINDS = ["NewGrp", "Sub", "Leave", "SetOther", "Pub", "DelMsg", "GetData", "GetDel", "Unload"]
+KINDS = ["NewGrp", "Sub", "Leave", "SetOther", "Pub", "DelMsg", "GetData", "GetDel", "Unload", "Reload"]
 RANGES = [[(1, 0)], [(1, 3)], [(2, 2)], [(1, 3), (3, 0)], [(1, 3), (4, 6)], [(3, 9)], [(2, 0), (1, 2), (4, 0)], [(0, 2)], [(5, 0)], [(2, 4), (1, 5)], [(3, 0), (1, 0)]]
 
 
